@@ -174,6 +174,8 @@ def persistent_memo_hazards(fn: ast.AST, private_attr) -> Tuple[List[Tuple[str, 
         owner, attr = t.value.value.id, t.value.attr
         if not private_attr(attr):
             continue
+        if isinstance(st.value, ast.Name) and st.value.id in params:
+            continue  # a plain registration of an argument (`table[name] = node`): nothing computed is being cached
         reads = [n for n in own_nodes(fn) if (
             (isinstance(n, ast.Compare) and len(n.ops) == 1 and isinstance(n.ops[0], (ast.In, ast.NotIn)) and isinstance(n.comparators[0], ast.Attribute) and n.comparators[0].attr == attr)
             or (isinstance(n, ast.Subscript) and isinstance(n.ctx, ast.Load) and isinstance(n.value, ast.Attribute) and n.value.attr == attr)
